@@ -1,4 +1,4 @@
 // temporary stubs
 #include "sim.hpp"
 #define STUB(n) J gen_##n(const std::string&, uint64_t, const std::string&) { J p = J::obj(); p.set("knobs", J::obj()); return p; } void exec_##n(const J&) {}
-STUB(tasks) STUB(ro) STUB(nest)
+STUB(nest)
